@@ -108,3 +108,6 @@
 #ifndef FAC_ODD_THRESHOLD
 #define FAC_ODD_THRESHOLD 35
 #endif
+#ifndef BINV_NEWTON_THRESHOLD
+#define BINV_NEWTON_THRESHOLD 300
+#endif
